@@ -355,7 +355,21 @@ private:
     if (record_timestamp_ns >= _next_rotation_time)
     {
       _rotate_files(record_timestamp_ns);
-      _next_rotation_time = _calculate_rotation_tp(record_timestamp_ns, _config);
+
+      if (_config.rotation_frequency() == RotatingFileSinkConfig::RotationFrequency::Daily)
+      {
+        // next occurrence of the configured HH:MM after this record, in the sink's time zone
+        _next_rotation_time = _calculate_initial_rotation_tp(record_timestamp_ns, _config);
+      }
+      else
+      {
+        // stay on the schedule: advance from the previous rotation point past this record
+        do
+        {
+          _next_rotation_time = _calculate_rotation_tp(_next_rotation_time, _config);
+        } while (_next_rotation_time <= record_timestamp_ns);
+      }
+
       return true;
     }
 
